@@ -56,6 +56,9 @@ fn main() {
 	std::panic::set_hook(Box::new(|_| {}));
 	let f = std::fs::File::open(&args[2]).expect("case file");
 	let out = std::io::stdout();
+	// a hung case leaves a spinning thread behind; after a few of them the verdict is clear and the remaining
+	// cases of this file are reported as SKIPPED-AFTER-HANGS instead of waiting out one timeout each
+	let mut hangs = 0usize;
 	for line in std::io::BufReader::new(f).lines() {
 		let line = line.unwrap();
 		let line = line.trim();
@@ -70,7 +73,14 @@ fn main() {
 			writeln!(o, "== {}", id).unwrap();
 			o.flush().unwrap();
 		}
-		let s = run_case(mode, &id, fields, timeout_ms);
+		let s = if hangs >= 3 {
+			"SKIPPED-AFTER-HANGS\n".to_string()
+		} else {
+			run_case(mode, &id, fields, timeout_ms)
+		};
+		if s.starts_with("HANG") {
+			hangs += 1;
+		}
 		let mut o = out.lock();
 		o.write_all(s.as_bytes()).unwrap();
 		o.flush().unwrap();
